@@ -5,6 +5,7 @@ import Proofs.ProbingP2
 import Proofs.ProbingAutoP2Run
 import Proofs.ProbingAutoInserts
 import Proofs.ProbingRunD
+import Proofs.VocabTop
 /-!
 # C20 — Core lookup primitives behave as exact maps and arrays  (bit-packing clause)
 
@@ -639,5 +640,141 @@ example : (runAP2 id thetaReal { t := emptyTable 1, thr := thetaReal 1 }
     some (16, 10, 14) := by decide
 
 end Probing
+
+/-! ## Vocabularies (lm/vocab.hh, lm/vocab.cc) on top of the probing table and the interpolation search
+
+Model: `Model/Vocab.lean`.  Words are represented by their 64-bit MurmurHash (abstract); the word-level
+statements take injectivity of the hash on the words that occur as an explicit hypothesis (`InjOn`), and
+`hash w ≠ 0` (0 is the invalid key of these tables: a word hashing to 0 is outside the C++ contract).
+-/
+section Vocabularies
+open KV.Probing KV.Vocab
+
+/-- **`GrowableVocab` (lmplz): the ids of a token stream do not depend on the initial size of the
+`AutoProbing` table, hence not on its doubling history** — in the shape of KV.C07's hypothesis
+`h_vocab : ∀ m, I.encode m text = ids text` (`I.encode m := growableIds … (xOf m)`, `ids := firstOccurrenceIds …`):
+for every memory configuration `m` the id sequences `CorpusCount` appends are the positions of first
+occurrence among the distinct words, `<unk>`, `<s>`, `</s>` being 0, 1, 2 (and dropped from the lines).
+General in: the word type, the hash (injective on the occurring words), the text, the configuration type and
+its map to the `RoundBuckets` argument (any value in `[1, 2^63]`, see `initial_arg_ok`). -/
+theorem vocab_ids_indep {Mem W : Type} [DecidableEq W] (hash : W → Nat) (unk bos eos : W) (unkCapHash : Nat)
+    (xOf : Mem → Nat) (hx : ∀ m, 1 ≤ xOf m ∧ xOf m ≤ 2^63) (text : List (List W))
+    (hsp : unk ≠ bos ∧ unk ≠ eos ∧ bos ≠ eos)
+    (hinj : InjOn hash ([unk, bos, eos] ++ text.flatten))
+    (hnz : ∀ w, w ∈ [unk, bos, eos] ++ text.flatten → hash w ≠ 0)
+    (hmax : (specEncode unk bos eos text).2 < kWordIndexMax) :
+    ∀ m, growableIds hash unk bos eos unkCapHash (xOf m) text = firstOccurrenceIds unk bos eos text :=
+  vocab_ids_indep' hash unk bos eos unkCapHash xOf hx text hsp hinj hnz hmax
+
+/-- the full result (ids and `type_count_`), for one initial size -/
+theorem vocab_ids_first_occurrence {W : Type} [DecidableEq W] (hash : W → Nat) (unk bos eos : W) (unkCapHash : Nat)
+    (text : List (List W)) (hsp : unk ≠ bos ∧ unk ≠ eos ∧ bos ≠ eos)
+    (hinj : InjOn hash ([unk, bos, eos] ++ text.flatten))
+    (hnz : ∀ w, w ∈ [unk, bos, eos] ++ text.flatten → hash w ≠ 0)
+    (hmax : (specEncode unk bos eos text).2 < kWordIndexMax) (x : Nat) (h1 : 1 ≤ x) (h2 : x ≤ 2^63) :
+    growableEncode ⟨hash unk, unkCapHash, hash bos, hash eos⟩ x (text.map (·.map hash)) =
+      .ok (specEncode unk bos eos text) :=
+  growable_ids_first_occurrence hash unk bos eos unkCapHash text hsp hinj hnz hmax x h1 h2
+
+/-- every 32-bit `initial_size` gives an admissible `RoundBuckets` argument -/
+theorem vocab_initial_arg_ok (init fl : Nat) (hi : init < 2^32) (hf : fl ≤ 2^63) :
+    1 ≤ max (init + 1) fl ∧ max (init + 1) fl ≤ 2^63 := initial_arg_ok init fl hi hf
+
+/-- injective hashes transport positions: the bridge between the hash-level statements below and words -/
+theorem hash_inj_transfer {W : Type} [DecidableEq W] (hash : W → Nat) (seen : List W) (w : W)
+    (hinj : InjOn hash (w :: seen)) :
+    (seen.map hash).idxOf (hash w) = seen.idxOf w ∧ (hash w ∈ seen.map hash ↔ w ∈ seen) :=
+  idxOf_map_inj hash seen w hinj
+
+/-- **`ProbingVocabulary`**: `Insert` in file order, `Index` = id of an inserted word, 0 otherwise -/
+theorem probing_vocab_correct (sp : Specials) (N : Nat) (ws : List Nat)
+    (hnd : (ws.filter (fun k => !isUnk sp k)).Nodup) (hN : (ws.filter (fun k => !isUnk sp k)).length < N) :
+    ∃ v, pInsertAll sp (pNew N) ws = .ok (pSpecIds sp 1 ws, v) ∧
+      v.bound = (ws.filter (fun k => !isUnk sp k)).length + 1 ∧
+      v.sawUnk = ws.any (isUnk sp) ∧
+      ∀ k, pIndex v k = some (if k ∈ ws.filter (fun k => !isUnk sp k)
+                              then (ws.filter (fun k => !isUnk sp k)).idxOf k + 1 else 0) :=
+  probing_vocab_correct' sp N ws hnd hN
+
+/-- … with the bucket count of `ProbingHashTable::Size(entries, multiplier)` for any multiplier
+(`fl` = whatever the float product is): enough room whenever the header count covers the words -/
+theorem probing_vocab_sized (sp : Specials) (entries fl : Nat) (ws : List Nat)
+    (hnd : (ws.filter (fun k => !isUnk sp k)).Nodup) (hE : (ws.filter (fun k => !isUnk sp k)).length ≤ entries) :
+    ∃ v, pInsertAll sp (pNew (max (entries + 1) fl)) ws = .ok (pSpecIds sp 1 ws, v) ∧
+      ∀ k, pIndex v k = some (if k ∈ ws.filter (fun k => !isUnk sp k)
+                              then (ws.filter (fun k => !isUnk sp k)).idxOf k + 1 else 0) :=
+  probing_vocab_sized' sp entries fl ws hnd hE
+
+/-- the ids `Insert` returned are the ids `Index` reports afterwards -/
+theorem probing_vocab_insert_ids (sp : Specials) (ws : List Nat) (hnd : (ws.filter (fun k => !isUnk sp k)).Nodup) :
+    pSpecIds sp 1 ws = ws.map (fun k => if isUnk sp k then 0 else (ws.filter (fun k => !isUnk sp k)).idxOf k + 1) := by
+  have := pSpecIds_eq_index sp ws [] (by simpa using hnd)
+  simpa using this
+
+/-- **`SortedVocabulary`**: after `FinishedLoading` the hashes are strictly sorted, the (hash, weights) pairs are
+a permutation of the supplied ones, `Index` = rank + 1 for inserted words and 0 otherwise — for every
+floating-point pivot `f` — and the weights found at `Index(h)` are those supplied with `h` -/
+theorem sorted_vocab_correct {β : Type} (f : Nat → Nat → Nat → Nat) (sp : Specials) (ws : List Nat) (weights : List β)
+    (hlen : weights.length = (ws.filter (fun k => !(k = sp.unk || k = sp.unkCap))).length)
+    (hnd : (ws.filter (fun k => !(k = sp.unk || k = sp.unkCap))).Nodup) :
+    let keys := ws.filter (fun k => !(k = sp.unk || k = sp.unkCap))
+    let v0 := (sInsertAll sp sNew ws).2
+    let r := sFinish v0 weights
+    v0.keys = keys ∧
+    r.1.keys.Pairwise (· < ·) ∧ r.1.keys.Perm keys ∧ (r.1.keys.zip r.2).Perm (keys.zip weights) ∧
+    (∀ k, k < 2^64 → sIndex f r.1 k = if k ∈ keys then keys.countP (· < k) + 1 else 0) ∧
+    (∀ h w, h < 2^64 → (h, w) ∈ keys.zip weights → r.2[sIndex f r.1 h - 1]? = some w) ∧
+    sBound r.1 = keys.length + 1 ∧
+    r.1.sawUnk = ws.any (fun k => k = sp.unk || k = sp.unkCap) :=
+  sorted_vocab_correct' f sp ws weights hlen hnd
+
+/-- `std::sort` is not stable and unspecified — irrelevant: on distinct hashes every sorted permutation of the
+pairs is the model's `jointSort` -/
+theorem joint_sort_unique {β : Type} (ps l : List (Nat × β)) (hnd : (ps.map (·.1)).Nodup) (hperm : l.Perm ps)
+    (hsorted : l.Pairwise (fun a b => a.1 ≤ b.1)) : l = jointSort ps :=
+  jointSort_unique ps l hnd hperm hsorted
+
+/-! ### non-vacuity -/
+
+def exSp : Specials := ⟨100, 200, 3, 7⟩
+
+/-- a token stream through `GrowableVocab` with one bucket and with 64 buckets initially: same ids
+(`3` is `<s>`: dropped), six types -/
+example : (growableEncode exSp 1 [[5, 9, 5], [3, 9, 11]]).toOption = some ([[3, 4, 3], [4, 5]], 6) ∧
+    (growableEncode exSp 64 [[5, 9, 5], [3, 9, 11]]).toOption = some ([[3, 4, 3], [4, 5]], 6) ∧
+    specEncode (100 : Nat) 3 7 [[5, 9, 5], [3, 9, 11]] = ([[3, 4, 3], [4, 5]], 6) := by decide
+
+/-- the hypotheses of `vocab_ids_indep` hold for words = numbers, hash = `· + 1`, configurations = numbers -/
+example : ∀ m : Nat, growableIds (· + 1) 0 1 2 999 (m % 1000 + 1) [[5, 9, 5], [1, 9, 11]] =
+    firstOccurrenceIds (0 : Nat) 1 2 [[5, 9, 5], [1, 9, 11]] :=
+  vocab_ids_indep (· + 1) 0 1 2 999 (fun m => m % 1000 + 1) (fun m => by omega) [[5, 9, 5], [1, 9, 11]]
+    (by decide) (fun a _ b _ e => by simpa using e) (fun w _ => by simp) (by decide)
+
+/-- `ProbingVocabulary` with 8 buckets: `<unk>` (hash 100) is id 0 and not in the table -/
+example :
+    let r := (pInsertAll exSp (pNew 8) [5, 100, 9, 3]).toOption
+    r.map (·.1) = some [1, 0, 2, 3] ∧ r.map (fun r => (r.2.bound, r.2.sawUnk)) = some (4, true) ∧
+    r.map (fun r => [pIndex r.2 9, pIndex r.2 100, pIndex r.2 42, pIndex r.2 3]) = some [some 2, some 0, some 0, some 3] := by
+  decide
+
+/-- `SortedVocabulary`: `Insert` of hashes 50, `<unk>`, 20, 30 gives provisional ids 1, 0, 2, 3 -/
+example : sInsertAll exSp sNew [50, 100, 20, 30] = ([1, 0, 2, 3], ⟨[50, 20, 30], true⟩) := by rfl
+
+/-- … `FinishedLoading` with weights 10, 11, 12 (`List.mergeSort` does not evaluate by `decide`; the result is
+pinned down by `joint_sort_unique`) -/
+theorem exJointSort : jointSort [(50, 10), (20, 11), (30, 12)] = [(20, 11), (30, 12), (50, 10)] :=
+  (joint_sort_unique [(50, 10), (20, 11), (30, 12)] [(20, 11), (30, 12), (50, 10)] (by decide) (by decide) (by decide)).symm
+
+example : sFinish (⟨[50, 20, 30], true⟩ : SVocab) [10, 11, 12] = (⟨[20, 30, 50], true⟩, [11, 12, 10]) := by
+  show (({ keys := (jointSort [(50, 10), (20, 11), (30, 12)]).map (·.1), sawUnk := true } : SVocab),
+        (jointSort [(50, 10), (20, 11), (30, 12)]).map (·.2)) = _
+  rw [exJointSort]; rfl
+
+/-- … and `Index`: rank + 1, with two different pivots; absent hashes and `<unk>` give 0 -/
+example : sIndex (fun _ _ _ => 0) ⟨[20, 30, 50], true⟩ 50 = 3 ∧ sIndex (fun o r w => o * w / (r + 1)) ⟨[20, 30, 50], true⟩ 20 = 1 ∧
+    sIndex (fun _ _ w => w) ⟨[20, 30, 50], true⟩ 30 = 2 ∧ sIndex (fun _ _ _ => 0) ⟨[20, 30, 50], true⟩ 25 = 0 ∧
+    sIndex (fun _ _ _ => 0) ⟨[20, 30, 50], true⟩ 100 = 0 ∧ sBound ⟨[20, 30, 50], true⟩ = 4 := by decide
+
+end Vocabularies
 
 end KV.C20
